@@ -30,8 +30,11 @@ static long live0; static uint64_t fd0;
 /* ================================================================== */
 /* client side                                                         */
 
-enum { T_PAIR, T_TCP, T_REFUSED, NTRANSPORT };
-static const char *tnames[] = { "pair", "tcp", "refused" };
+/* T_LATE: the first connect goes to the port that refuses; once the client has seen the refusal (a retry is
+ * pending) the service "comes up": the harness points the connection object at the worker's listener, so the
+ * retry connects and is served */
+enum { T_PAIR, T_TCP, T_REFUSED, T_LATE, NTRANSPORT };
+static const char *tnames[] = { "pair", "tcp", "refused", "tcp-refused-then-listening" };
 
 struct script { const char *label; const char *bytes; int close_after; };
 static const struct script scripts[] = {
@@ -214,9 +217,11 @@ static void c_loop(void)
 static int serve(struct peer *p, const struct script *sc, int transport)
 {
 	size_t n = strlen(sc->bytes), from = 0;
-	int nf = transport == T_TCP ? NFAULTS : NFAULTS - 1;
+	int nf = (transport == T_TCP || transport == T_LATE) ? NFAULTS : NFAULTS - 1;
+	/* on the refused-then-listening transport the fault alphabet is only switched on with -P latefaults=1 (thorough) */
+	int ask = transport != T_LATE || mc_param("latefaults", 0);
 	for (size_t k = 0; k <= n; k++) {
-		int f = mc_choose(nf, 1, "fault");
+		int f = ask ? mc_choose(nf, 1, "fault") : F_NONE;
 		if (f == F_NONE) continue;
 		mc_observe("{%s@%zu} ", fnames[f], k);
 		MC_COUNT("faults_injected");
@@ -243,7 +248,7 @@ static int serve(struct peer *p, const struct script *sc, int transport)
 
 static void run_client(void)
 {
-	int tmask = mc_param("transports", 7), smask = mc_param("scripts", 15);
+	int tmask = mc_param("transports", 15), smask = mc_param("scripts", 15);
 	int tl[NTRANSPORT], nt = 0, sl[NSCRIPTS], ns = 0;
 	for (int i = 0; i < NTRANSPORT; i++) if (tmask >> i & 1) tl[nt++] = i;
 	for (int i = 0; i < NSCRIPTS; i++) if (smask >> i & 1) sl[ns++] = i;
@@ -253,7 +258,7 @@ static void run_client(void)
 	int si = sl[mc_choose(ns, 0, "script")];
 	int plan = mc_choose(1 + (NACTIONS - 1) * mc_param("maxat", 3), 0, "user-action");
 	const struct script *sc = &scripts[si];
-	int listener = -1, lport = 0, sv[2] = { -1, -1 };
+	int listener = -1, lport = 0, sv[2] = { -1, -1 }, listening = 1;
 	memset(R, 0, sizeof R); nR = 0; nP = 0;
 	c_evcon_freed = c_abandoned = c_events = c_action_done = c_in_cb = 0;
 	c_plan_action = plan ? 1 + (plan - 1) % (NACTIONS - 1) : A_NONE;
@@ -269,9 +274,14 @@ static void run_client(void)
 		hc_set_peer_addr(c_evcon, hc_refused_port);
 		memset(&P[0], 0, sizeof P[0]); P[0].fd = sv[1]; nP = 1;
 	} else if (transport == T_TCP) {
-		listener = hc_listener(&lport);
-		if (listener < 0) { hc_exec_end(); return; }
+		listener = hc_worker_listen_fd; lport = hc_worker_listen_port;
+		hc_worker_listener_drain();
 		c_evcon = evhttp_connection_base_new(hc_base, NULL, "127.0.0.1", (ev_uint16_t)lport);
+	} else if (transport == T_LATE) {
+		listener = hc_worker_listen_fd; lport = hc_worker_listen_port;
+		hc_worker_listener_drain();
+		listening = 0;
+		c_evcon = evhttp_connection_base_new(hc_base, NULL, "127.0.0.1", (ev_uint16_t)hc_refused_port);
 	} else {
 		c_evcon = evhttp_connection_base_new(hc_base, NULL, "127.0.0.1", (ev_uint16_t)hc_refused_port);
 	}
@@ -289,7 +299,14 @@ static void run_client(void)
 		if (c_abandoned) break;
 		if (!c_evcon_freed) hc_settle_connect(c_evcon);
 		/* new TCP connections */
-		if (listener >= 0) {
+		if (listener >= 0 && !listening && !c_evcon_freed && c_evcon->retry_cnt > 0) {
+			/* the first connect has been refused and a retry is scheduled: from now on the port accepts */
+			c_evcon->port = (ev_uint16_t)lport;
+			listening = 1; progress = 1;
+			mc_observe("(service up) ");
+			MC_COUNT("late_listeners_opened");
+		}
+		if (listener >= 0 && listening) {
 			if (!c_evcon_freed && c_evcon->state == EVCON_CONNECTING) hc_real_wait(listener, POLLIN, 1000);
 			for (;;) {
 				int fd = accept(listener, NULL, NULL);
@@ -355,11 +372,7 @@ static void run_client(void)
 	if (!c_evcon_freed) evhttp_connection_free(c_evcon);
 	c_evcon = NULL;
 	for (int i = 0; i < nP; i++) { if (P[i].fd >= 0) peer_close(&P[i], 0); hc_buf_free(&P[i].in); }
-	if (listener >= 0) {
-		/* connections still in the accept queue */
-		for (;;) { int fd = accept(listener, NULL, NULL); if (fd < 0) break; struct linger lg = { 1, 0 }; setsockopt(fd, SOL_SOCKET, SO_LINGER, &lg, sizeof lg); close(fd); }
-		close(listener);
-	}
+	if (listener >= 0) hc_worker_listener_drain();      /* connections still in the accept queue */
 	hc_exec_end();
 }
 
@@ -564,6 +577,7 @@ static void run_server(void)
 static void init(void)
 {
 	hc_global_init();
+	hc_worker_listener_init();
 	live0 = mcx_alloc_live(); fd0 = mcx_fd_signature();
 }
 
